@@ -678,3 +678,9 @@ Q(id='C07.aln_runner_serial', props=['C07', 'C02'], cls='P', harness='c07_runner
   unwind=4, timeout=600, replayable=False, funcs=['aln_runner_serial'],
   trusted=[TRUST_MSG, 'kernels and aln_continue replaced at the call sites by order/argument contracts (contracts/aln_runner.contracts.h); each has its own queries'],
   assumptions=[A_NOFAIL, 'block coordinates symbolic in 0..100000, boundary states over the full float domain, all three operand kinds; full-alignment mode (ALN_MODE_FULL)'])
+Q(id='C01.kalign_run.protocol', props=['C01', 'C04', 'C09', 'C16', 'C03'], cls='P', harness='c01_protocol.c', entry='h_c01_protocol',
+  mode='dfcc', replace=['kalign_essential_input_check', 'dealign_msa', 'msa_sort_len_name', 'convert_msa_to_internal', 'alloc_tasks', 'build_tree_kmeans', 'aln_param_init',
+                        'create_msa_tree', 'finalise_alignment', 'msa_sort_rank', 'aln_param_free', 'free_tasks'],
+  unwind=4, timeout=600, replayable=False, funcs=['kalign_run'],
+  trusted=[TRUST_MSG, 'esl_stopwatch_*: no-op stubs', 'all twelve callees replaced at the call sites by the step contracts of contracts/aln_wrap.contracts.h; each has its own queries'],
+  assumptions=['status / kind of sequence / thread count / type / penalties (full float domain) / failing step symbolic; OpenMP call omp_set_num_threads is outside the non-OpenMP verification build (static fact omp_set_num_threads_each_call)'])
